@@ -49,7 +49,7 @@ FUNCTIONS = (['pymeeus/%s.py:%s.%s' % (p, p, m) for p in PLANETS for m in HAS36[
                 'pymeeus/Coordinates.py:passage_nodes_elliptic'])
 
 MANIFEST = dict(
-    text=("PARTIAL. Proved in Lean 4 (Props/C13.lean, 26 theorems), for the 28 Meeus ch. 36 periodic-term finders "
+    text=("PARTIAL. Proved in Lean 4 (Props/C13.lean, 38 theorems), for the 28 Meeus ch. 36 periodic-term finders "
           "(conjunctions, oppositions, greatest elongations, stations) on data records regenerated from the current source "
           "by tools/gen_finders.py. (a) For every real value y of epoch.year(): the period count "
           "k = round((365.2425 y + 1721060 - A)/B) (half-even) is monotone and takes every integer between its extremes; "
@@ -62,7 +62,16 @@ MANIFEST = dict(
           "before -2000 Jan 1.0 or after 4000 Jan 1.0; the JDE of the returned Epoch never moves backwards as j advances, "
           "consecutive counts are B +- 2 C_f apart, |365.2425 year() + 1721060 - j| <= 18 (proved calendar term, 17.5 d at "
           "-2000) and |returned JDE - j| <= B/2 + |c0| + C_f + 18 < B. For the 7 perihelion_aphelion: k monotone, onto, "
-          "first approximations strictly increasing one period apart, also as functions of the query JDE. NOT proved, "
+          "first approximations strictly increasing one period apart, also as functions of the query JDE; the count is the "
+          "nearest admissible one (|k - C(year - Y0)| <= 1/2), perihelia and aphelia alternate, and - PARTIAL, under the "
+          "hypothesis that the returned value lies in the interpolation bracket [jde - d, jde + d] - final results of "
+          "different orbits are ordered and P - var - 2d apart. Tables (kernel-decided on the regenerated records): every "
+          "series has degree <= 2 in t with linear/quadratic coefficient sums <= 0.14 / 0.002; brackets d >= 1/2 day, "
+          "2d < P - var. The reported elongation angle is a number in [14, 48.1] degrees within elonRad of elonMid (never "
+          "reduced by to_positive); all multipliers of sin(j m) are whole numbers and the Angle(...) normalisations change "
+          "angles by whole turns only, so corr equals Meeus' formula at the raw angles M0 + k M1, c0 + c1 t, and the mean "
+          "anomaly used is in [0, 2 pi); the two-body node passage (model of C11) is less than half an orbital period from "
+          "the perihelion it is computed from; the range guard accepts year() = -2000.0 and 4000.0 themselves. NOT proved, "
           "measured only: that the returned instants are events of the VSOP87 theory (agreement of two independent series), "
           "everything after the first approximation in perihelion_aphelion (VSOP87 + Interpolation.minmax) and passage_nodes "
           "(two-body motion). Measured by (I) on the implementation: sign change of the event function across "
